@@ -1,11 +1,22 @@
 (* C17 -- default setters resolve in dependency order and always terminate.
-   Proved here: TERMINATION for arbitrary setters (any dependency graph, any failures) within
-   the step bound n(n+1)+1, and locality of other exceptions.  The least-fixpoint
-   characterisation of the result is checked against the real code by the
-   exhaustive / random graph oracle of the harness (see DESIGN section 6 C17: partial). *)
+   Proved here, for the model at the facts extracted from /repo:
+   - TERMINATION for arbitrary setters (any dependency graph, any failures) within the step bound n(n+1)+1;
+   - locality of other exceptions;
+   - the LEAST FIXPOINT: for dependency-graph setters (KeyError exactly when an input is absent, otherwise a value or
+     another exception) over ANY number of fields, any graph (self-loops, several cycles), any set of fields already
+     present and ANY order of the pending list, the document ends with exactly the obtainable fields and exactly the
+     pending fields that are not resolvable -- on or behind a cycle, a failing setter or a missing key, or failing
+     themselves -- carry a SETTING_DEFAULT_FAILED error at their own path; two orders give the same result.
+   Assumption A-hash (hash of the pending tuple injective) is built into the model: [seen] holds the lists.
+   The values the set fields receive are checked by the graph oracle of the harness, not stated here. *)
 From Coq Require Import List ZArith String Bool.
-From Cerb Require Import Values PyOps Errors Facts Pool Validate Worklist Normalize WorklistProofs DefaultsProofs Current.
+From Cerb Require Import Values PyOps Errors Facts SpecFacts FactsOk Pool Validate Worklist Normalize WorklistProofs DefaultsProofs LfpProofs SetterLfp Current.
 Import ListNotations.
+
+(* the loop in the source is the loop Worklist.v models: head popped, KeyError re-queues at the BACK, any other exception is
+   filed for the field itself, the pending list is remembered as a tuple, a repeated list files all pending fields and stops *)
+Theorem C17_worklist_shape_is_modelled : ok_worklist current = true.
+Proof. vm_compute. reflexivity. Qed.
 
 (* generic: whatever calling a setter does (as long as the call itself returns), the work-list
    stops within wl_fuel n = n(n+1)+1 iterations *)
@@ -47,6 +58,128 @@ Example C17_example :
   match wl_run nstate (setter_call current x table) (setter_circular current x)
                {| n_map := [(KStr "d", VInt 1)]; n_errs := [] |} [KStr "a"; KStr "b"; KStr "c"] with
   | Ok ns => (List.length (n_errs ns) = 2%nat /\ assoc_get (KStr "c") (n_map ns) = Some (VList [VInt 1]))
+  | _ => False
+  end.
+Proof. vm_compute. split; reflexivity. Qed.
+
+(* the least fixpoint, on the work-list itself: generic in the state *)
+Theorem C17_worklist_least_fixpoint :
+  forall (St : Type) (call : St -> key -> res (disp St)) (circular : St -> list key -> res St)
+         (dom errs : St -> list key) (deps : key -> list key) (ok : key -> bool) (st0 : St) (pending0 : list key),
+    NoDup pending0 ->
+    (forall st f, In f pending0 ->
+       match call st f with
+       | Ok (DDone s) => ready St dom deps st f = true /\ ok f = true /\
+                         (forall k, In k (dom s) <-> k = f \/ In k (dom st)) /\ (forall k, In k (errs s) <-> In k (errs st))
+       | Ok (DFailed s) => ready St dom deps st f = true /\ ok f = false /\
+                           (forall k, In k (dom s) <-> In k (dom st)) /\ (forall k, In k (errs s) <-> k = f \/ In k (errs st))
+       | Ok DRequeue => ready St dom deps st f = false
+       | _ => False
+       end) ->
+    (forall st f, call st f <> OutOfFuel) -> (forall st l, circular st l <> OutOfFuel) ->
+    (forall st P, (forall g, In g P -> In g pending0) -> exists s,
+       circular st P = Ok s /\ (forall k, In k (dom s) <-> In k (dom st)) /\ (forall k, In k (errs s) <-> In k P \/ In k (errs st))) ->
+    exists s, wl_run St call circular st0 pending0 = Ok s /\
+      (forall k, In k (dom s) <-> obtain St dom deps ok st0 pending0 k) /\
+      (forall k, In k (errs s) <-> In k (errs st0) \/ (In k pending0 /\ ~ resolvable St dom deps ok st0 pending0 k)).
+Proof. exact wl_least_fixpoint. Qed.
+Print Assumptions C17_worklist_least_fixpoint.
+
+(* ... and on the normalization model at the extracted facts *)
+Theorem C17_least_fixpoint :
+  forall x table deps ok,
+    NoDup (map fst table) ->
+    (forall f, In f (map fst table) -> forall m,
+      match call_setter m (match assoc_get f table with Some r => r | None => None end) with
+      | Ok (SetOk _) => (forall d, In d (deps f) -> In d (map fst m)) /\ ok f = true
+      | Ok SetRequeue => ~ (forall d, In d (deps f) -> In d (map fst m))
+      | Ok (SetFailed _) => (forall d, In d (deps f) -> In d (map fst m)) /\ ok f = false
+      | _ => False
+      end) ->
+    (forall f, In f (map fst table) ->
+      exists code rs0 rs, errdef current "SETTING_DEFAULT_FAILED" = (code, Some "default_setter") /\
+        assoc_get f (x_schema x) = Some rs0 /\ resolve_rules_set (x_cfg x) rs0 = Some rs /\ vmem "default_setter" rs = true)%string ->
+    forall ns0, exists ns',
+      wl_run nstate (setter_call current x table) (setter_circular current x) ns0 (map fst table) = Ok ns' /\
+      (forall k, In k (dom ns') <-> obtain nstate dom deps ok ns0 (map fst table) k) /\
+      (forall k, In k (failed_fields current x ns') <->
+                 In k (failed_fields current x ns0) \/
+                 (In k (map fst table) /\ ~ resolvable nstate dom deps ok ns0 (map fst table) k)).
+Proof. exact (default_setters_least_fixpoint current). Qed.
+Print Assumptions C17_least_fixpoint.
+
+Theorem C17_order_irrelevant :
+  forall x table table' deps ok ns0,
+    NoDup (map fst table) -> NoDup (map fst table') ->
+    (forall f, In f (map fst table) <-> In f (map fst table')) ->
+    (forall f, assoc_get f table' = assoc_get f table) ->
+    (forall f, In f (map fst table) -> forall m,
+      match call_setter m (match assoc_get f table with Some r => r | None => None end) with
+      | Ok (SetOk _) => (forall d, In d (deps f) -> In d (map fst m)) /\ ok f = true
+      | Ok SetRequeue => ~ (forall d, In d (deps f) -> In d (map fst m))
+      | Ok (SetFailed _) => (forall d, In d (deps f) -> In d (map fst m)) /\ ok f = false
+      | _ => False
+      end) ->
+    (forall f, In f (map fst table) ->
+      exists code rs0 rs, errdef current "SETTING_DEFAULT_FAILED" = (code, Some "default_setter") /\
+        assoc_get f (x_schema x) = Some rs0 /\ resolve_rules_set (x_cfg x) rs0 = Some rs /\ vmem "default_setter" rs = true)%string ->
+    exists ns1 ns2,
+      wl_run nstate (setter_call current x table) (setter_circular current x) ns0 (map fst table) = Ok ns1 /\
+      wl_run nstate (setter_call current x table') (setter_circular current x) ns0 (map fst table') = Ok ns2 /\
+      (forall k, In k (dom ns1) <-> In k (dom ns2)) /\
+      (forall k, In k (failed_fields current x ns1) <-> In k (failed_fields current x ns2)).
+Proof. exact (order_irrelevant current). Qed.
+Print Assumptions C17_order_irrelevant.
+
+(* non-vacuity of the hypotheses: a <- b, b <- (nothing), c <-> d (cycle), e <- b but raises ValueError,
+   with the pool's reading setters; the graph hypothesis holds for EVERY document *)
+Definition ex_table : list (key * option value) :=
+  [(KStr "c", Some (VDict [(KStr "default_setter", VStr "rd_d")]));
+   (KStr "a", Some (VDict [(KStr "default_setter", VStr "rd_b")]));
+   (KStr "e", Some (VDict [(KStr "default_setter", VStr "rdx_b")]));
+   (KStr "d", Some (VDict [(KStr "default_setter", VStr "rd_c")]));
+   (KStr "b", Some (VDict [(KStr "default_setter", VStr "rd_")]))]%string.
+Definition ex_deps (f : key) : list key :=
+  if key_eqb f (KStr "a") then [KStr "b"] else if key_eqb f (KStr "c") then [KStr "d"]
+  else if key_eqb f (KStr "d") then [KStr "c"] else if key_eqb f (KStr "e") then [KStr "b"] else [].
+Definition ex_ok (f : key) : bool := negb (key_eqb f (KStr "e")).
+
+Example C17_graph_hypothesis_holds :
+  forall f, In f (map fst ex_table) -> forall m,
+    match call_setter m (match assoc_get f ex_table with Some r => r | None => None end) with
+    | Ok (SetOk _) => (forall d, In d (ex_deps f) -> In d (map fst m)) /\ ex_ok f = true
+    | Ok SetRequeue => ~ (forall d, In d (ex_deps f) -> In d (map fst m))
+    | Ok (SetFailed _) => (forall d, In d (ex_deps f) -> In d (map fst m)) /\ ex_ok f = false
+    | _ => False
+    end.
+Proof.
+  intros f Hf m. cbn in Hf. destruct Hf as [<-|[<-|[<-|[<-|[<-|[]]]]]].
+  - pose proof (reading_setter_graph "rd_d" "d" m eq_refl) as H.
+    change (match assoc_get (KStr "c") ex_table with Some r => r | None => None end) with (Some (VDict [(KStr "default_setter", VStr "rd_d")]))%string.
+    destruct (call_setter m _) as [[v| |e]| |]; try contradiction; [split; [exact H|reflexivity]|exact H].
+  - pose proof (reading_setter_graph "rd_b" "b" m eq_refl) as H.
+    change (match assoc_get (KStr "a") ex_table with Some r => r | None => None end) with (Some (VDict [(KStr "default_setter", VStr "rd_b")]))%string.
+    destruct (call_setter m _) as [[v| |e]| |]; try contradiction; [split; [exact H|reflexivity]|exact H].
+  - pose proof (raising_setter_graph "rdx_b" "b" m eq_refl) as H.
+    change (match assoc_get (KStr "e") ex_table with Some r => r | None => None end) with (Some (VDict [(KStr "default_setter", VStr "rdx_b")]))%string.
+    destruct (call_setter m _) as [[v| |e]| |]; try contradiction; [exact H|split; [exact H|reflexivity]].
+  - pose proof (reading_setter_graph "rd_c" "c" m eq_refl) as H.
+    change (match assoc_get (KStr "d") ex_table with Some r => r | None => None end) with (Some (VDict [(KStr "default_setter", VStr "rd_c")]))%string.
+    destruct (call_setter m _) as [[v| |e]| |]; try contradiction; [split; [exact H|reflexivity]|exact H].
+  - pose proof (reading_setter_graph "rd_" "" m eq_refl) as H.
+    change (match assoc_get (KStr "b") ex_table with Some r => r | None => None end) with (Some (VDict [(KStr "default_setter", VStr "rd_")]))%string.
+    destruct (call_setter m _) as [[v| |e]| |]; try contradiction; [split; [exact H|reflexivity]|exact H].
+Qed.
+
+(* ... and on that table the run ends as the theorem says: a, b set; c, d (cycle) and e (raises) in error *)
+Example C17_lfp_example :
+  let cfg := {| c_allow_unknown := VBool false; c_require_all := false; c_ignore_none := false; c_purge_unknown := false;
+                c_purge_readonly := false; c_is_child := false; c_is_normalized := false; c_root_doc := VNone;
+                c_rules_reg := []; c_schema_reg := [] |} in
+  let x := {| x_cfg := cfg; x_schema := map (fun kv => (fst kv, match snd kv with Some v => v | None => VNone end)) ex_table;
+              x_doc := []; x_dp := []; x_sp := []; x_update := false |} in
+  match wl_run nstate (setter_call current x ex_table) (setter_circular current x) {| n_map := []; n_errs := [] |} (map fst ex_table) with
+  | Ok ns => (map fst (n_map ns) = [KStr "b"; KStr "a"] /\ failed_fields current x ns = [KStr "c"; KStr "d"; KStr "e"])%string
   | _ => False
   end.
 Proof. vm_compute. split; reflexivity. Qed.
